@@ -15,6 +15,9 @@ class SHACryptInfo:
     hash: str
 
     def as_str(self):
+        if self.rounds is None:
+            # implicit rounds: the cost field is omitted altogether
+            return f"{self._prefix}{self.salt}${self.hash}"
         return f"{self._prefix}rounds={self.rounds}${self.salt}${self.hash}"
 
     @property
